@@ -526,8 +526,10 @@ Print Assumptions C12_parse_total_partial_typed_deferred.
     Method's two leading children, and only the value of its own first child is rewritten), it leaves reader, stacks and pool
     size alone, and the count [dcnt] the walk theorem needs EXISTS for every live object and is bounded by the pool size
     (induction over the forest by depth; the subtrees of two siblings are disjoint).  When [parse_rest] returns, [R], valid
-    indexes and slices-inside hold.  Fuel exhaustion is not excluded.  NOT derived: that passes 1-2 establish the directive
-    shape, TM2 and PEND. *)
+    indexes and slices-inside hold.  Fuel exhaustion is not excluded.  NOT derived here: that passes 1-2 establish the directive
+    shape, the Method typing and PEND (see the end-to-end theorem).  The Method typing hypothesis is the CONCRETE one, [TM3] (first
+    child a childless pOpIntNamePath object with its row, second a pOpBytePrefix object with its row and a number; it implies TM2):
+    the typing the deferred pass works with carries these facts, so that the flags argument of a Method is never moved away. *)
 Theorem C12_parse_total_partial_nopanic_rest :
   forall (tbls : list (list N)) (fuel : nat) (s : pstate) (g : ghost),
     R (p_tree s) g ->
@@ -535,7 +537,7 @@ Theorem C12_parse_total_partial_nopanic_rest :
     rok (p_r s) -> p_scopeStack s = [] -> Inv tbls s ->
     glive g 0 -> groot g 0 -> is_sb s 0 ->
     tyS NoX (p_tables s) (p_handle s) (p_tree s) g ->
-    TM2 (p_tree s) g -> PEND s g ->
+    TM3 (p_tree s) g -> PEND s g ->
     (forall i o, TreeSpec.get (p_tree s) i = Some o -> o_opcode o <> opFreed -> o_opcode o = aml_pOpIntNamePathOrMethodCall ->
                  exists tbl sl, o_value o = Some (VBytes tbl sl)) ->
     lp s + lp s * (8 * r_len (p_r s) + 3) + 4 <= InvalidIndex ->
@@ -610,7 +612,7 @@ Theorem C12_parse_total_partial_nopanic_rest2 :
     R (p_tree s) g ->
     (forall i o, TreeSpec.get (p_tree s) i = Some o -> o_opcode o <> opFreed -> opInfo (o_infoIndex o) <> None) ->
     rok (p_r s) -> p_scopeStack s = [] -> Inv tbls s ->
-    SH s g ->
+    SH3 s g ->
     (forall i o, TreeSpec.get (p_tree s) i = Some o -> o_opcode o <> opFreed -> o_opcode o = aml_pOpIntNamePathOrMethodCall ->
                  exists tbl sl, o_value o = Some (VBytes tbl sl)) ->
     lp s + lp s * (8 * r_len (p_r s) + 3) + 4 <= InvalidIndex ->
@@ -667,7 +669,8 @@ Print Assumptions C12_parse_total_namestring_good.
     pool NEVER panics, and when it returns the pool satisfies [R], valid indexes and slices-inside.  The hypotheses speak only about
     the pool BEFORE the call and about sizes - nothing about the run:
       - [R], valid opcode-table indexes, a live parentless ScopeBlock root in slot 0;
-      - the Methods already in the pool are typed (TM2: a name-path, a byte constant, no pending flags - what an earlier ParseAML leaves);
+      - the Methods already in the pool are typed (TM3: first child a childless pOpIntNamePath object with the name-path row, second a
+        pOpBytePrefix object with its row and a number - what CreateDefaultScopes (no Method) and every successful ParseAML leave);
       - (nothing about free slots: newObject clears the name of a reused slot since /repo d18acb2, so a Scope directive created
         in a reused slot carries the zero name and a lookup never returns the directive itself);
       - every name-path-or-call object carries a []byte, the slices of the pool lie inside the earlier tables;
@@ -682,7 +685,7 @@ Theorem C12_parse_total_never_panics :
     (forall i o, TreeSpec.get tree i = Some o -> o_opcode o <> opFreed -> opInfo (o_infoIndex o) <> None) ->
     glive g 0 -> groot g 0 ->
     (exists o, TreeSpec.get tree 0 = Some o /\ o_opcode o = aml_pOpIntScopeBlock) ->
-    TM2 tree g ->
+    TM3 tree g ->
     (forall i o, TreeSpec.get tree i = Some o -> o_opcode o <> opFreed -> o_opcode o = aml_pOpIntNamePathOrMethodCall ->
                  exists tbl sl, o_value o = Some (VBytes tbl sl)) ->
     pool_ok earlier tree ->
@@ -707,7 +710,7 @@ Theorem C12_parse_total_parseAML_never_panics :
     (forall i o, TreeSpec.get tree i = Some o -> o_opcode o <> opFreed -> opInfo (o_infoIndex o) <> None) ->
     glive g 0 -> groot g 0 ->
     (exists o, TreeSpec.get tree 0 = Some o /\ o_opcode o = aml_pOpIntScopeBlock) ->
-    TM2 tree g ->
+    TM3 tree g ->
     (forall i o, TreeSpec.get tree i = Some o -> o_opcode o <> opFreed -> o_opcode o = aml_pOpIntNamePathOrMethodCall ->
                  exists tbl sl, o_value o = Some (VBytes tbl sl)) ->
     pool_ok earlier tree ->
@@ -753,20 +756,22 @@ Theorem C12_parse_total_load_first_table_never_panics :
 Proof. exact load_first_table_never_panics. Qed.
 Print Assumptions C12_parse_total_load_first_table_never_panics.
 
-
 (** WHAT A SUCCESSFUL ParseAML RETURNS: under the hypotheses of C12_parse_total_never_panics, when parseAML_body returns (any fuel) the
-    pool satisfies [R], valid indexes and slices-inside, and when it returns SUCCESS ([b = true]) in addition slot 0 is again a live
-    parentless ScopeBlock ([KR]) and every name-path-or-call object carries a []byte ([tpost]).  Proof: the chain of the end-to-end
-    theorem with an abstract invariant threaded through the last three passes (ParserTotalNonNamed / ParserTotalCalls: sections Inv,
-    hypotheses Kmove / Kupd; ParserTotalDeferV.deferred_tail_post; ParserTotalChain.rest_post; ParserTotalPass2.rest2_post;
-    ParserTotalPass1.parseAML_body_post), instantiated with "slot 0 holds a ScopeBlock". *)
-Theorem C12_parse_total_post_root :
+    pool satisfies [R], valid indexes and slices-inside, and when it returns SUCCESS ([b = true]) in addition: slot 0 is again a live
+    parentless ScopeBlock, every name-path-or-call object carries a []byte, and the Methods are typed ([TM3]) - i.e. every hypothesis
+    about the pool is RE-ESTABLISHED.  Proof: an abstract tree invariant is threaded through all passes (sections Inv of
+    ParserTotalNonNamed.v / ParserTotalCalls.v with hypotheses Kmove / Kupd; deferred_tail_post, rest_post, rest2_post,
+    parseAML_body_post), instantiated with "slot 0 holds a ScopeBlock and TM3": first pass LI3, connectNamedObjArgs SH3, resolve loop
+    KS3, parseDeferredBlocks by the typing of the walk itself (the block proof now carries the concrete typing of Method objects
+    together with "the object whose arguments are parsed / on top of the scope stack does not carry the name-path row", so the name path
+    of a Method stays childless), last two passes TM3_move / TM3_upd. *)
+Theorem C12_parse_total_post :
   forall (tree : T) (g : ghost) (earlier : list (list N)) (handle : N) (data : list N) (fuel : nat),
     R tree g ->
     (forall i o, TreeSpec.get tree i = Some o -> o_opcode o <> opFreed -> opInfo (o_infoIndex o) <> None) ->
     glive g 0 -> groot g 0 ->
     (exists o, TreeSpec.get tree 0 = Some o /\ o_opcode o = aml_pOpIntScopeBlock) ->
-    TM2 tree g ->
+    TM3 tree g ->
     (forall i o, TreeSpec.get tree i = Some o -> o_opcode o <> opFreed -> o_opcode o = aml_pOpIntNamePathOrMethodCall ->
                  exists tbl sl, o_value o = Some (VBytes tbl sl)) ->
     pool_ok earlier tree ->
@@ -781,12 +786,12 @@ Theorem C12_parse_total_post_root :
         (b = true -> glive g' 0 /\ groot g' 0 /\
            (forall i o, TreeSpec.get (p_tree s') i = Some o -> o_opcode o <> opFreed -> o_opcode o = aml_pOpIntNamePathOrMethodCall ->
                         exists tbl sl, o_value o = Some (VBytes tbl sl)) /\
-           (exists o, TreeSpec.get (p_tree s') 0 = Some o /\ o_opcode o = aml_pOpIntScopeBlock))
+           (exists o, TreeSpec.get (p_tree s') 0 = Some o /\ o_opcode o = aml_pOpIntScopeBlock) /\ TM3 (p_tree s') g')
     | Panic => False
     | OutOfFuel => True
     end.
-Proof. exact parseAML_body_post_root. Qed.
-Print Assumptions C12_parse_total_post_root.
+Proof. exact parseAML_body_post3. Qed.
+Print Assumptions C12_parse_total_post.
 
 (** HANDLES: ParseAML never changes the handle of an existing slot and creates objects with the handle of the table being parsed only
     (partial-correctness judgement [hb] over every function of all six passes, ParserTotalHandle.v). *)
@@ -798,45 +803,8 @@ Theorem C12_parse_total_handles :
 Proof. exact parseAML_handles. Qed.
 Print Assumptions C12_parse_total_handles.
 
-(** A SEQUENCE of tables.  [INV] collects the hypotheses of C12_parse_total_never_panics about the pool (with "every handle in the
-    pool is below the next handle" for freshness); it holds for the pool of CreateDefaultScopes (ds_INV).  [fits] is the size
-    hypothesis (image_small and the quadratic memory bound over the pool at that moment).
-    C12_parse_total_parseAML_keeps_invariant_mod: a SUCCESSFUL ParseAML re-establishes [INV] for the next handle MODULO ONE conjunct,
-    [RES] = "the Methods of the returned pool are typed (TM2)": [R], valid indexes, slices inside the tables, the live parentless
-    ScopeBlock root, the []byte typing and the handle bound ARE derived (theorems above).
-    C12_parse_total_load_sequence_never_panics_mod / _load_never_panics_mod: loading any number of tables never panics, where [SEQ]
-    asks for each table in turn [fits] and the residue [RES] about the state a successful ParseAML returned.
-    What is missing for the unconditional theorem is exactly "ParseAML re-establishes TM2".  TM2 as stated is NOT an invariant of
-    resolveMethodCalls / connectNonNamedObjArgs in the abstract (a state whose Method has a name-path-or-call object, or an object
-    with children, as first child satisfies TM2, and the pass may move the flags argument below it); the invariant that IS preserved
-    is the concrete typing "first child: a childless pOpIntNamePath object with its own row, second child: a pOpBytePrefix object with
-    its row and a number", and it still has to be threaded through all six passes (see notes/c12res.md). *)
-Theorem C12_parse_total_parseAML_keeps_invariant_mod :
-  forall (tree : T) (g : ghost) (earlier : list (list N)) (h : N) (data : list N) (s : pstate),
-    INV tree g earlier h -> fits tree data -> parseAML tree earlier h data = Ok (true, s) -> RES s ->
-    exists g', INV (p_tree s) g' (earlier ++ [data]) (h + 1).
-Proof. exact parseAML_keeps_INV_mod. Qed.
-Print Assumptions C12_parse_total_parseAML_keeps_invariant_mod.
-
-Theorem C12_parse_total_load_sequence_never_panics_mod :
-  forall (payloads : list (list N)) (tree : T) (g : ghost) (earlier : list (list N)) (h : N),
-    INV tree g earlier h -> SEQ tree earlier h payloads -> fst (fst (load_tables tree earlier h payloads)) <> 2.
-Proof. exact load_tables_never_panics_mod. Qed.
-Print Assumptions C12_parse_total_load_sequence_never_panics_mod.
-
-Theorem C12_parse_total_load_never_panics_mod :
-  forall payloads : list (list N), SEQ ds_tree [] 1 payloads -> fst (fst (load payloads)) <> 2.
-Proof. exact load_never_panics_mod. Qed.
-Print Assumptions C12_parse_total_load_never_panics_mod.
-
-(** THE METHOD TYPING THROUGH THE LAST TWO PASSES.  [TM3] is the concrete typing of Method objects: the first child is a CHILDLESS
-    pOpIntNamePath object with the name-path row, the second a pOpBytePrefix object with its row and a number.  It implies TM2
-    (C12_parse_total_methods_TM3_TM2) and - unlike TM2, which allows a name-path-or-call object or an object with children in first
-    position - it IS preserved by resolveMethodCalls and by connectNonNamedObjArgs from any state with [R], valid indexes, slices
-    inside, []byte typing and a live parentless root: attachSiblingsAsArgs never takes the flags argument away (the name path has no
-    children and its row asks for no arguments), a rewritten name-path-or-call object is none of the three objects.  (Instances
-    TM3_move / TM3_upd of the abstract invariant of ParserTotalNonNamed.v / ParserTotalCalls.v.)  NOT proved: TM3 through the first four
-    passes (for Methods created inside deferred blocks the block proof lacks a typing of the scope stack), hence the _mod above. *)
+(** The concrete Method typing implies the abstract one, and each of the last two passes taken alone preserves it (from any state
+    with [R], valid indexes, slices inside, []byte typing and a live parentless root). *)
 Theorem C12_parse_total_methods_TM3_TM2 : forall (t : T) (g : ghost), TM3 t g -> TM2 t g.
 Proof. exact TM3_TM2. Qed.
 Print Assumptions C12_parse_total_methods_TM3_TM2.
@@ -883,39 +851,30 @@ Theorem C12_parse_total_partial_connectNonNamedObjArgs_keeps_methods :
 Proof. exact connectNonNamedObjArgs_keeps_TM3. Qed.
 Print Assumptions C12_parse_total_partial_connectNonNamedObjArgs_keeps_methods.
 
-(** THE LOAD SEQUENCE MODULO ONE LEMMA ABOUT parseDeferredBlocks.  [DEF3new] is a single, run-independent proposition about the model:
-    "the Method objects CREATED by a successful parseDeferredBlocks(0) - started in a state with the walk invariant and typed Methods -
-    satisfy the concrete typing TM3" (Methods inside While / Buffer bodies).  Under it:
-      - a successful ParseAML re-establishes the WHOLE loop invariant [INV3] (= INV with TM3 in place of TM2) for the next handle
-        (C12_parse_total_parseAML_keeps_invariant_mod_deferred), and
-      - loading ANY NUMBER of tables never panics, the only hypothesis about the payloads being the sizes [SEQ3] (image_small and the
-        quadratic memory bound over the pool at each step) (C12_parse_total_load_sequence_never_panics_mod_deferred, _load_never_panics_mod_deferred).
-    Everything else about TM3 IS proved: first pass (LI3_next_holds), connectNamedObjArgs (SH3), the resolve loop (KS3), the last two
-    passes (TM3_move / TM3_upd), and parseDeferredBlocks for the Methods that existed before it (C12_parse_total_partial_deferred_keeps_old_methods:
-    [DEF3new] implies [DEF3], by the frame of the walk - two leading children that are not pending stay in front, a childless object
-    that is not pending stays childless).  What the block proof of parseDeferredBlocks lacks for [DEF3new] is a typing of the scope
-    stack in parseModeAllBlocks ("the object on top of the scope stack / whose arguments are parsed is never the name path of a
-    Method"), which makes that name path stay childless. *)
-Theorem C12_parse_total_partial_deferred_keeps_old_methods : DEF3new -> DEF3.
-Proof. exact DEF3_of_new. Qed.
-Print Assumptions C12_parse_total_partial_deferred_keeps_old_methods.
-
-Theorem C12_parse_total_parseAML_keeps_invariant_mod_deferred :
-  DEF3new ->
+(** A SEQUENCE OF TABLES, UNCONDITIONAL.  [INV] is the invariant of the load loop: the hypotheses of C12_parse_total_never_panics about
+    the pool (R, valid indexes, live parentless ScopeBlock root, Method typing TM3, []byte typing, slices inside the tables loaded so
+    far) and "every handle in the pool is below the next handle".  It holds for the pool of CreateDefaultScopes with handle 1 (ds_INV),
+    and a SUCCESSFUL ParseAML re-establishes it for the next handle (C12_parse_total_parseAML_keeps_invariant).  [fits] is the size
+    hypothesis of one table: image_small (bytes below 256, image of at most 2^28 bytes) and the quadratic memory bound over the pool at
+    that moment; [SEQ] asks [fits] for each table in turn, over the pool the previous successful loads left - NOTHING else.
+    C12_parse_total_load_sequence_never_panics: from any pool with INV, loading ANY NUMBER of tables (handles h, h+1, ...; the loop
+    stops at the first table that fails to parse) never panics.  C12_parse_total_load_never_panics: the model's entry point [load] (the
+    function the correspondence harness runs against the Go parser: CreateDefaultScopes, then the tables with handles 1, 2, ...) never
+    has outcome class 2 (= panic).  Fuel exhaustion (class 3) is not excluded. *)
+Theorem C12_parse_total_parseAML_keeps_invariant :
   forall (tree : T) (g : ghost) (earlier : list (list N)) (h : N) (data : list N) (s : pstate),
-    INV3 tree g earlier h -> fits tree data -> parseAML tree earlier h data = Ok (true, s) ->
-    exists g', INV3 (p_tree s) g' (earlier ++ [data]) (h + 1).
-Proof. exact parseAML_keeps_INV3. Qed.
-Print Assumptions C12_parse_total_parseAML_keeps_invariant_mod_deferred.
+    INV tree g earlier h -> fits tree data -> parseAML tree earlier h data = Ok (true, s) ->
+    exists g', INV (p_tree s) g' (earlier ++ [data]) (h + 1).
+Proof. exact parseAML_keeps_INV. Qed.
+Print Assumptions C12_parse_total_parseAML_keeps_invariant.
 
-Theorem C12_parse_total_load_sequence_never_panics_mod_deferred :
-  DEF3new ->
+Theorem C12_parse_total_load_sequence_never_panics :
   forall (payloads : list (list N)) (tree : T) (g : ghost) (earlier : list (list N)) (h : N),
-    INV3 tree g earlier h -> SEQ3 tree earlier h payloads -> fst (fst (load_tables tree earlier h payloads)) <> 2.
-Proof. exact load_tables_never_panics3. Qed.
-Print Assumptions C12_parse_total_load_sequence_never_panics_mod_deferred.
+    INV tree g earlier h -> SEQ tree earlier h payloads -> fst (fst (load_tables tree earlier h payloads)) <> 2.
+Proof. exact load_tables_never_panics. Qed.
+Print Assumptions C12_parse_total_load_sequence_never_panics.
 
-Theorem C12_parse_total_load_never_panics_mod_deferred :
-  DEF3new -> forall payloads : list (list N), SEQ3 ds_tree [] 1 payloads -> fst (fst (load payloads)) <> 2.
-Proof. exact load_never_panics3. Qed.
-Print Assumptions C12_parse_total_load_never_panics_mod_deferred.
+Theorem C12_parse_total_load_never_panics :
+  forall payloads : list (list N), SEQ ds_tree [] 1 payloads -> fst (fst (load payloads)) <> 2.
+Proof. exact load_never_panics. Qed.
+Print Assumptions C12_parse_total_load_never_panics.
